@@ -164,7 +164,8 @@ def run_sync(spec, gs, pkg, hs=None):
     if spec.get("no_call"):
         return rec
     kw = build_call(spec, False)
-    kw.setdefault("timeout", spec.get("deadline", 8.0))   # a wrong arity must fail, not hang
+    kw.setdefault("timeout", spec.get("deadline", 30.0))   # a wrong arity must fail, not hang; generous: the machine may be busy
+    kw.setdefault("metadata", [(CALL_ID, str(spec.get("id")))])
     rec["stage"] = "call"
     res = fn(**kw)
     if spec.get("big_reply"):
@@ -189,7 +190,8 @@ async def run_async(spec, gs, pkg):
     if spec.get("no_call"):
         return rec
     kw = build_call(spec, True)
-    kw.setdefault("timeout", spec.get("deadline", 8.0))
+    kw.setdefault("timeout", spec.get("deadline", 30.0))
+    kw.setdefault("metadata", [(CALL_ID, str(spec.get("id")))])
     rec["stage"] = "call"
     res = fn(**kw)
     if inspect.isawaitable(res):
@@ -217,7 +219,13 @@ async def run_async(spec, gs, pkg):
     return rec
 
 
+CALL_ID = "x-gv-call-id"
+
+
 def main():
+    """Every call carries its spec id in the invocation metadata; what the loopback server recorded is attributed to the specs by
+    that id AFTER all specs ran and the server has drained (a call whose object the client dropped may reach the server while
+    later specs are running; attributing records by time window made the next spec see two calls now and then)."""
     payload = json.load(sys.stdin)
     sys.path.insert(0, payload["root"])
     for p in payload.get("extra_paths", []):
@@ -234,22 +242,35 @@ def main():
         spec["_rec"] = rec
         try:
             if spec["transport"] == "grpc_asyncio":
-                asyncio.run(asyncio.wait_for(run_async(spec, gs, payload["package"]), spec.get("timeout", 12)))
+                asyncio.run(asyncio.wait_for(run_async(spec, gs, payload["package"]), spec.get("timeout", 45)))
             else:
                 run_sync(spec, gs, payload["package"], hs)
         except BaseException as e:  # noqa  (SyntaxError/ImportError of the emitted package included)
             rec["ok"] = False
             rec["error"] = D.exc_info(e)
             rec["traceback"] = traceback.format_exc()[-1200:]
-        rec["calls"] = [{"path": c["path"], "requests": c["requests"], "metadata": c["metadata"]} for c in gs.take_calls()]
         if hs is not None:
-            rec["http_calls"] = hs.take_calls()
+            rec["http_calls"] = hs.take_calls()      # REST calls are synchronous: nothing is in flight when the method returns
         results.append(rec)
-    gs.stop()
+    # let every handler that is still running finish (records are appended to while requests arrive), then read them once
+    gs.server.stop(5.0).wait(20.0)
+    by_id, unattributed = {}, []
+    for c in gs.take_calls():
+        cid = next((v for k, v in c["metadata"] if k == CALL_ID), None)
+        entry = {"path": c["path"], "requests": list(c["requests"]),
+                 "metadata": [kv for kv in c["metadata"] if kv[0] != CALL_ID], "t": c.get("t")}
+        if cid is None:
+            unattributed.append(entry)
+        else:
+            by_id.setdefault(cid, []).append(entry)
+    ids = {str(r["id"]) for r in results}
+    for r in results:
+        r["calls"] = sorted(by_id.get(str(r["id"]), []), key=lambda e: e["t"] or 0)
+    stray = [k for k in by_id if k not in ids]
     if hs is not None:
         hs.stop()
     print()
-    print(json.dumps(results))
+    print(json.dumps({"results": results, "harness": {"unattributed": unattributed[:5], "unknown_ids": stray[:5], "n_specs": len(results)}}))
 
 
 main()
